@@ -23,6 +23,7 @@ EXPLANATION = (
     " (R5) operator families: for every index form the Add/Sub/Mul/Div (and plain) assign kernels have the same addressing normal form modulo the operator, so one member reading its source or sink differently from its siblings is reported; (R6) the assignment compilers hand (sink, index..., source) to the kernels in the role order the kernels' struct fields declare."
     ' (R4, chained dispatchers) in every `kind1-arms(arg).or_else(kind2-arms(arg))...` assignment dispatcher each numeric kind is tried by as many kernel families as the other kinds.'
     ' (R7) index operands keep their position in subscript_ref() and the four op-assign dispatchers: the j-th index value is evaluated from the j-th subscript.'
+    " (R8) every assignment-dispatcher arm that takes a logical mask is guarded by `mask.len() == <sink extent>` so that a mask of the wrong length is rejected before anything is written."
 )
 
 OPS = {"Add": "+", "Sub": "-", "Mul": "*", "Div": "/"}
@@ -147,6 +148,12 @@ def check_assign_kernel(fs, k, forms, op=None):
 
 
 def run(F, rep, tier):
+    _run(F, rep, tier)
+    from rules.c04_maskguard import run_r8
+    run_r8(F, rep)
+
+
+def _run(F, rep, tier):
     rep.rule("C04-R1", "routing: subscript_ref() compiles the assign family of each index-form pair; every compiler used by <op>_assign reaches only sink[p] := sink[p] OP src kernels")
     rep.rule("C04-R2", "assign kernels: 1-based per position, row/column roles, source aligned with the index step, sink never resized")
     rep.rule("C04-R3", "multi-element assign kernels validate their indices before the first write (failure atomicity)")
